@@ -37,10 +37,15 @@ def impl_fn(F, trait_suffix, self_ty, method):
 
 
 def match_arms(f):
+    """the principal match of an impl body: the user-written match with the most arms (a pre-match that peels off a special
+    case, an if-let, or a `?` does not count)"""
+    best = None
     for x in hir_walk(f.hir["body"]):
-        if x.get("k") == "match" and not x.get("source", "").startswith(("TryDesugar", "ForLoop")):
-            return x
-    return None
+        if x.get("k") == "match" and not x.get("exp") and not (x.get("source") or "").startswith(("TryDesugar", "ForLoop", "IfLet", "WhileLet")):
+            score = (sum(1 for a in x["arms"] if a["pat"].get("k") != "wild" and not a.get("guard")), len(x["arms"]))
+            if best is None or score > best[0]:
+                best = (score, x)
+    return best[1] if best else None
 
 
 EQ_TRUE_KINDS = {"value::Value": {"Nil", "Integer", "Real", "Object"},
@@ -211,6 +216,58 @@ def rule_e(F):
     return res
 
 
+def rule_n(F):
+    """C19.N: integers and reals are ordered by numeric value. An i64 converted to f64 is rounded beyond 2^53, so a mixed
+    comparison that converts the integer side is wrong there (2^53+1 compares Equal to 2^53.0). In `PartialOrd for Value`
+    the mixed pairs (a Real on exactly one side) are decided before the common-type cast, by a comparator that takes the
+    integer as an integer and never converts it to a float."""
+    from cao.facts import DefUse
+    from cao import mirutil as mu
+    res = []
+    f = impl_fn(F, "cmp::PartialOrd", "value::Value", "partial_cmp")
+    key = "C19/N/Value/mixed-integer-real-order-is-exact"
+    exact = []
+    for y in hir_walk(f.hir["body"]):
+        if y.get("k") == "call":
+            for n_ in hir_callee(y):
+                g = F.fn(n_, required=False)
+                if g is None or not g.hir or not g.mir:
+                    continue
+                ptys = [p_.get("ty") for p_ in g.hir.get("params", [])]
+                if sorted(ptys) == ["f64", "i64"]:
+                    exact.append((y, g))
+    if not exact:
+        return [bad("C19.N", key, f.loc(), "PartialOrd for Value decides mixed Integer/Real pairs only after converting both operands to a common "
+                    "type: the integer side goes through `as f64`, which rounds beyond 2^53, so Integer(2^53+1) compares Equal to Real(2^53) - "
+                    "the two kinds are not ordered by numeric value")]
+    # both orders handled, before the cast
+    casts = [y for y in hir_walk(f.hir["body"]) if y.get("k") == "mcall" and any(n_.endswith("try_cast_match") for n_ in hir_callee(y))]
+    before = all((y.get("ln") or 0) < (c.get("ln") or 10 ** 9) for y, _g in exact for c in casts)
+    g = exact[0][1]
+    lossy = False
+    ipar = next((i + 1 for i, p_ in enumerate(g.hir["params"]) if p_.get("ty") == "i64"), None)
+    du = DefUse(g)
+    for b in g.blocks:
+        for st in b["stmts"]:
+            if st["k"] == "assign" and st["rv"]["k"] == "cast" and st["rv"].get("kind") == "IntToFloat":
+                l = op_local_(st["rv"]["op"])
+                kind, payload = du.trace_back(l) if l is not None else (None, None)
+                if (kind == "arg" and payload == ipar) or l == ipar:
+                    lossy = True
+    if len(exact) >= 2 and before and not lossy:
+        res.append(ok("C19.N", key, f.loc(exact[0][0].get("ln")), "both mixed orders go to %s(i64, f64) before the common-type cast; it never converts the integer to a float" % g.name))
+    else:
+        res.append(bad("C19.N", key, f.loc(exact[0][0].get("ln")), "mixed Integer/Real pairs are not all decided by an exact comparison before the common-type "
+                       "cast (sites: %d, before the cast: %s, integer converted to float inside: %s): beyond 2^53 the order of an integer and a "
+                       "real is not the order of their numeric values" % (len(exact), before, lossy)))
+    return res
+
+
+def op_local_(op):
+    from cao.facts import op_local
+    return op_local(op)
+
+
 def rule_x(F):
     """C19.X: equality of numbers is exact. In `PartialEq for Value` the (Integer, Integer) and (Real, Real) arms are the
     payloads' own `==` on the two bound values and nothing else. A tolerance (|a - b| < eps) is not transitive - not an
@@ -355,6 +412,7 @@ def rule_z(F):
 RULES = [
     Rule("C19.H", rule_h, 6, "hash never finer than eq (no pointer identity in the hasher)"),
     Rule("C19.T", rule_t, 1, "table equality and hash agree on row order"),
+    Rule("C19.N", rule_n, 1, "mixed integer/real ordering is exact (no i64 -> f64 rounding)"),
     Rule("C19.X", rule_x, 2, "equality of numbers is the payloads' exact =="),
     Rule("C19.C", rule_c, 2, "numbers are ordered by their payload's own PartialOrd (consistent with ==)"),
     Rule("C19.E", rule_e, 6, "eq answers true only for same-kind pairs"),
